@@ -38,9 +38,10 @@ vars == <<cfg, hist, st, tree, userEnv>>
 -----------------------------------------------------------------------------
 (* Named deviations of this interpreter from bash that show up in the library. *)
 Dev_ErrTrapOnExit  == FALSE  \* `exit n` with n # 0 does not run the ERR trap (the interpreter did until 8965d83; bash does not)
-Dev_DirsIgnoresCd  == TRUE   \* `cd` does not replace the top of the directory stack shown by `dirs`
-Dev_UnaliasMissing == "0"    \* `unalias` of a missing alias has status 0 (bash: 1)
-Dev_UnsetReadonly  == "0"    \* `unset` of a readonly variable prints the error but has status 0 (bash: 1)
+Dev_DirsIgnoresCd  == FALSE  \* `cd` replaces the top of the directory stack shown by `dirs` (the interpreter did not until 029b7ad)
+Dev_UnaliasMissing == "1"    \* `unalias` of a missing alias has status 1 like in bash (the interpreter returned 0 until 8c9228e)
+Dev_UnsetReadonly  == "0"    \* `unset` of a readonly variable prints the error but has status 0 (bash: 1); this status is pinned by
+                             \* the repository's own tests (`unset UID`, interp_test.go), so it is modelled, not reported
 
 -----------------------------------------------------------------------------
 (* Configuration: the arguments of interp.Params follow the contract documented at
@@ -109,6 +110,8 @@ UnsetV(s, n) ==
   IF s.vars[n].r THEN Fail(s, Dev_UnsetReadonly)
   ELSE Ok([s EXCEPT !.vars[n] = UnsetVar])
 ChDir(s, d) == [s EXCEPT !.old = s.cwd, !.cwd = d]
+Cd(s, d) == LET s1 == ChDir(s, d) IN
+            IF Dev_DirsIgnoresCd \/ s1.ds = <<>> THEN s1 ELSE [s1 EXCEPT !.ds = [@ EXCEPT ![Len(@)] = d]]
 
 (* ---- the statement library: the atom IS the shell source line ---- *)
 Library == <<
@@ -196,8 +199,8 @@ Effect(s, a) ==
     [] a = "trap 'echo TX' EXIT" -> Ok([s EXCEPT !.tx = "TX"])
     [] a = "trap 'echo TE' ERR"  -> Ok([s EXCEPT !.te = "TE"])
     [] a = "trap - EXIT"  -> Ok([s EXCEPT !.tx = ""])
-    [] a = "cd \"$BASE/sub1\"" -> Ok(ChDir(s, "D0/sub1"))
-    [] a = "cd \"$BASE/sub2\"" -> Ok(ChDir(s, "D0/sub2"))
+    [] a = "cd \"$BASE/sub1\"" -> Ok(Cd(s, "D0/sub1"))
+    [] a = "cd \"$BASE/sub2\"" -> Ok(Cd(s, "D0/sub2"))
     [] a = "pushd \"$BASE/sub1\"" ->
          LET s1 == [ChDir(s, "D0/sub1") EXCEPT !.ds = Append(@, "D0/sub1")]
          IN Ok(Emit(s1, Item("dirs", Rev(s1.ds))))
